@@ -45,9 +45,9 @@ UNITS["stack_lemmas"] = {
 
 UNITS["hasher"] = {
     "files": CRATE_FILES,
-    "prelude": _p("prelude/core.rs", "prelude/deps.rs", "prelude/kernels.rs"),
-    "spec": _p("spec/blake3_spec.rs", "spec/tree_spec.rs", "spec/stack_spec.rs"),
-    "assumed_overlays": _p("contracts/compress.vc", "contracts/chunk.vc", "contracts/tree.vc"),
+    "prelude": _p("prelude/core.rs", "prelude/deps.rs", "prelude/kernels.rs", "prelude/iomodel.rs"),
+    "spec": _p("spec/blake3_spec.rs", "spec/tree_spec.rs", "spec/stack_spec.rs", "spec/stream_spec.rs"),
+    "assumed_overlays": _p("contracts/compress.vc", "contracts/chunk.vc", "contracts/tree.vc", "contracts/xof.vc"),
     "overlays": _p("contracts/hasher.vc"),
     "verify": "code",
     "doc": "incremental Hasher (update/finalize/reset/count), hazmat extension, against the tree spec",
